@@ -40,4 +40,30 @@ def stCmd (hp : Heap Int) (args : List String) : Heap Int × String :=
     | _, _ => (hp, "bad-op")
   | _ => (hp, "bad-op")
 
+
+/-! `to decl k=v …` declares a type (the first time: STRUCT + GLOBALSTRUCT on an empty name; later:
+    STRUCT + syncFields into the existing object), `to show` prints the fields in `Order` -/
+def toShow (t : TObj String) : String :=
+  " ".intercalate (t.entries.map fun kv => s!"{kv.1}={kv.2}")
+
+def toCmd (st : Option (TObj String)) (args : List String) : Option (TObj String) × String :=
+  match args with
+  | "reset" :: _ => (none, "ok")
+  | "decl" :: kvs =>
+    let parsed := kvs.mapM fun w => match w.splitOn "=" with
+      | [k, v] => k.toInt?.map fun k => (k, v)
+      | _ => none
+    match parsed with
+    | none => (st, "bad-op")
+    | some decl =>
+      match TObj.declare decl with
+      | none => (st, "stuck")
+      | some cur =>
+        match st with
+        | none => (some cur, toShow cur)
+        | some prev => match prev.sync cur with
+          | some t => (some t, toShow t)
+          | none => (st, "stuck")
+  | _ => (st, "bad-op")
+
 end Goat.Driver
